@@ -8,18 +8,21 @@ use std::collections::BTreeMap;
 use std::sync::mpsc::{channel, Receiver, Sender};
 use std::sync::{Arc, RwLock};
 
-struct Holder {
-    release: Sender<()>,
-    handle: std::thread::JoinHandle<String>,
-    steps: u32,
+/// A reader thread that stops at every hook point (`read_locked`: holds the mutex, before the seek;
+/// `read_seeked`: after the seek, before the read) and waits for the scheduler.
+struct Reader {
+    go: Sender<()>,
+    at: Receiver<char>,          // 'L' / 'S' pause reports, 'D' = done
+    handle: Option<std::thread::JoinHandle<String>>,
+    /// model steps still to be answered with `ok` before the thread itself must move
+    state: char,                 // 'L' paused holding the lock, 'S' paused after its seek, 'P' private thread paused after its seek with one model step (the seek) still to be consumed
 }
 
 pub struct RdRunner {
     dir: String,
     n: u64,
     st: Option<Arc<FileStorage>>,
-    holder: Option<(u64, Holder)>,
-    private: BTreeMap<u64, (String, u32)>,
+    readers: BTreeMap<u64, Reader>,
     pub forced_private: u64,
     pub locked: u64,
 }
@@ -31,12 +34,14 @@ fn res_str(r: Result<Vec<u8>, agdb::DbError>) -> String {
 impl RdRunner {
     pub fn new(dir: &str) -> Self {
         std::fs::create_dir_all(dir).unwrap();
-        RdRunner { dir: dir.into(), n: 0, st: None, holder: None, private: BTreeMap::new(), forced_private: 0, locked: 0 }
+        RdRunner { dir: dir.into(), n: 0, st: None, readers: BTreeMap::new(), forced_private: 0, locked: 0 }
     }
     fn name(&self) -> String { format!("{}/rd{}", self.dir, self.n) }
     pub fn finish(&mut self) {
-        if let Some((_, h)) = self.holder.take() { let _ = h.release.send(()); let _ = h.handle.join(); }
-        self.private.clear();
+        for (_, mut r) in std::mem::take(&mut self.readers) {
+            for _ in 0..3 { let _ = r.go.send(()); }
+            if let Some(h) = r.handle.take() { let _ = h.join(); }
+        }
         self.st = None;
         let _ = std::fs::remove_file(self.name());
         let _ = std::fs::remove_file(format!("{}/.rd{}", self.dir, self.n));
@@ -44,6 +49,7 @@ impl RdRunner {
     pub fn step(&mut self, out: &mut Out, line: &str) -> String {
         let t: Vec<&str> = line.split(' ').collect();
         if t.len() < 2 || t[0] != "rd" { return "bad-op".into(); }
+        let wait = std::time::Duration::from_secs(10);
         match &t[1..] {
             ["file", hx] => {
                 let Some(b) = unhex(hx) else { return "bad-op".into() };
@@ -55,56 +61,49 @@ impl RdRunner {
             ["start", th, pos, n] => {
                 let (Ok(th), Ok(pos), Ok(n)) = (th.parse::<u64>(), pos.parse::<u64>(), n.parse::<u64>()) else { return "bad-op".into() };
                 let Some(st) = self.st.clone() else { return "bad-op".into() };
-                if self.private.contains_key(&th) || self.holder.as_ref().map(|h| h.0 == th).unwrap_or(false) { return "ok".into(); } // busy: ignored like the model
-                if self.holder.is_none() {
-                    // this thread gets the lock; pause it inside the critical section
-                    let (rel_tx, rel_rx): (Sender<()>, Receiver<()>) = channel();
-                    let (at_tx, at_rx) = channel::<()>();
-                    let handle = std::thread::spawn(move || {
-                        let mut rel = Some(rel_rx);
-                        let mut at = Some(at_tx);
-                        agdb::verif::set_fs_hook(Some(Box::new(move |_f, op, _p, _b| {
-                            if op == "read_locked" {
-                                if let (Some(a), Some(r)) = (at.take(), rel.take()) { let _ = a.send(()); let _ = r.recv(); }
-                            }
-                        })));
-                        let r = res_str(st.read(pos, n).map(|b| b.to_vec()));
-                        agdb::verif::set_fs_hook(None);
-                        r
-                    });
-                    let _ = at_rx.recv_timeout(std::time::Duration::from_secs(10));
-                    self.locked += 1;
-                    self.holder = Some((th, Holder { release: rel_tx, handle, steps: 0 }));
-                } else {
-                    // the lock is held by a paused thread: this read must take the private-handle branch
-                    let st2 = st.clone();
-                    let r = std::thread::spawn(move || res_str(st2.read(pos, n).map(|b| b.to_vec()))).join().unwrap_or("panic".into());
-                    self.forced_private += 1;
-                    self.private.insert(th, (r, 0));
-                }
+                if self.readers.contains_key(&th) { return "ok".into(); } // busy: ignored like the model
+                let (go_tx, go_rx): (Sender<()>, Receiver<()>) = channel();
+                let (at_tx, at_rx) = channel::<char>();
+                let at_done = at_tx.clone();
+                let handle = std::thread::spawn(move || {
+                    agdb::verif::set_fs_hook(Some(Box::new(move |_f, op, _p, _b| {
+                        let c = match op { "read_locked" => 'L', "read_seeked" => 'S', _ => return };
+                        let _ = at_tx.send(c);
+                        let _ = go_rx.recv();
+                    })));
+                    let r = res_str(st.read(pos, n).map(|b| b.to_vec()));
+                    agdb::verif::set_fs_hook(None);
+                    let _ = at_done.send('D');
+                    r
+                });
+                let first = at_rx.recv_timeout(wait).unwrap_or('?');
+                let state = match first {
+                    'L' => { self.locked += 1; 'L' }
+                    'S' => { self.forced_private += 1; 'P' }
+                    _ => '?',
+                };
+                self.readers.insert(th, Reader { go: go_tx, at: at_rx, handle: Some(handle), state });
                 out.bump("rd-start");
                 "ok".into()
             }
             ["step", th] => {
                 let Ok(th) = th.parse::<u64>() else { return "bad-op".into() };
-                if let Some((ht, h)) = self.holder.as_mut() {
-                    if *ht == th {
-                        h.steps += 1;
-                        if h.steps == 1 { return "ok".into(); }
-                        let (_, h) = self.holder.take().unwrap();
-                        let _ = h.release.send(());
-                        let r = h.handle.join().unwrap_or("panic".into());
-                        return format!("done {th} {r}");
+                let Some(r) = self.readers.get_mut(&th) else { return "ok".into() };
+                match r.state {
+                    'P' => { r.state = 'S'; "ok".into() }                    // the private seek already happened
+                    'L' => {
+                        let _ = r.go.send(());                                 // perform the seek on the shared handle
+                        match r.at.recv_timeout(wait) { Ok('S') => { r.state = 'S'; "ok".into() } other => format!("unexpected:{other:?}") }
                     }
+                    'S' => {
+                        let _ = r.go.send(());                                 // perform the read
+                        let _ = r.at.recv_timeout(wait);
+                        let mut r = self.readers.remove(&th).unwrap();
+                        let res = r.handle.take().map(|h| h.join().unwrap_or("panic".into())).unwrap_or_default();
+                        format!("done {th} {res}")
+                    }
+                    _ => "unexpected-state".into(),
                 }
-                if let Some((r, k)) = self.private.get_mut(&th) {
-                    *k += 1;
-                    if *k == 1 { return "ok".into(); }
-                    let r = r.clone();
-                    self.private.remove(&th);
-                    return format!("done {th} {r}");
-                }
-                "ok".into()
             }
             _ => "bad-op".into(),
         }
